@@ -264,6 +264,11 @@ func rolesJobs(prop, tier string, phase2 func(r *Run, scn Scenario, U []Account,
 func c10Phase2(r *Run, scn Scenario, U []Account, states []*Node, known map[string]bool, shard int) {
 	w := scn.Build(KindDB)
 	subs := append(append([]Account{}, U...), Outsider)
+	for _, u := range U { // different accounts that share bytes with a holder: 32 bytes ending in, 8 bytes beginning, the holder's address
+		long := sdk.AccAddress(append(bytes.Repeat([]byte{0xAB}, 12), u.Addr...))
+		short := sdk.AccAddress(append([]byte{}, u.Addr[:8]...))
+		subs = append(subs, Account{Name: u.Name + "+12B", Addr: long, Str: long.String()}, Account{Name: u.Name + "[:8]", Addr: short, Str: short.String()})
+	}
 	for i, n := range states {
 		if i%rolesShards != shard {
 			continue
@@ -357,7 +362,7 @@ func c11Invalid() []string {
 		}
 	}
 	huge, _ := bech32Encode(Bech32Prefix, bytes.Repeat([]byte{7}, 300)) // longer than any address the SDK accepts
-	return []string{"", "garbage", wrong, string(bad), valoper, emptyPayload, huge}
+	return []string{"", "garbage", wrong, string(bad), valoper, emptyPayload, huge, Accts[1].Str + "\n", " " + Accts[2].Str, Accts[0].Str + " "}
 }
 
 // unrelatedTxs: one transaction of every non-role kind (valid parameters).
